@@ -9,6 +9,7 @@ import Mathlib.Tactic.Linarith
 import Mathlib.Tactic.Positivity
 import Mathlib.Tactic.IntervalCases
 import Mathlib.Tactic.NormNum
+import Mathlib.Algebra.BigOperators.Group.List.Basic
 /-!
 # C17 — B-spline signals and SplineMethod trajectories are exact splines of the model (partial)
 
@@ -179,6 +180,88 @@ theorem convex_lower (t : List K) (j : Nat) (x : K) (hs : SpanOK t j x) (d M : N
         exact mul_le_mul_of_nonneg_right (hc i hi') (basis_nonneg t j x hs d i (Or.inl (by omega)))
 
 end basis
+
+
+/-! ### the executable evaluation is the convex combination the theorems talk about -/
+section executable
+variable {K : Type} [Field K] [LinearOrder K] [IsStrictOrderedRing K]
+
+theorem sum_map_range (g : Nat → K) (n : Nat) : ((List.range n).map g).sum = ∑ i ∈ range n, g i := by
+  induction n with
+  | zero => simp
+  | succ n ih => rw [List.range_succ, List.map_append, List.sum_append, ih, sum_range_succ]; simp
+
+theorem foldl_add_eq_sum (l : List K) (z : K) : l.foldl (· + ·) z = z + l.sum := by
+  induction l generalizing z with
+  | nil => simp
+  | cons a l ih => simp [List.foldl_cons, ih, add_assoc]
+
+/-- `splineEval` (what the driver runs and what `sample` is compared with) is `Σ cᵢ·N_{i,d}(x)` -/
+theorem splineEval_eq_sum (xi : List K) (d : Nat) (c : List K) (x : K) (hc : c.length = nBasis xi d) :
+    splineEval xi d c x =
+      ∑ i ∈ range (nBasis xi d), c.getD i 0 * coxDeBoor (clampedKnots xi d) (spanIdx xi d x) x d i := by
+  unfold splineEval basisAt
+  simp only [nat_eq, Nat.cast_zero]
+  rw [foldl_add_eq_sum, zero_add, ← sum_map_range]
+  congr 1
+  apply List.ext_getElem
+  · simp [hc]
+  · intro i h1 h2
+    simp only [List.getElem_zipWith, List.getElem_map, List.getElem_range]
+    have hi : i < c.length := by simpa using (by simpa using h1 : i < min c.length (nBasis xi d)) |> fun h => lt_of_lt_of_le h (min_le_left _ _)
+    rw [List.getD_eq_getElem?_getD, List.getElem?_eq_getElem hi]
+    rfl
+
+theorem spanIdx_ge (xi : List K) (d : Nat) (x : K) : d ≤ spanIdx xi d x := by
+  unfold spanIdx; omega
+
+theorem foldl_idx_lt (p : Nat → Bool) (m : Nat) (hm : 0 < m) :
+    (List.range m).foldl (fun acc k => if p k then k else acc) 0 < m := by
+  suffices H : ∀ (n : Nat) (a : Nat), a < m → n ≤ m → (List.range n).foldl (fun acc k => if p k then k else acc) a < m by
+    exact H m 0 hm (le_refl m)
+  intro n
+  induction n with
+  | zero => intro a ha _; simpa using ha
+  | succ n ih =>
+    intro a ha hn
+    rw [List.range_succ, List.foldl_append]
+    simp only [List.foldl_cons, List.foldl_nil]
+    split
+    · omega
+    · exact ih a ha (by omega)
+
+theorem spanIdx_lt (xi : List K) (d : Nat) (x : K) (h : 2 ≤ xi.length) : spanIdx xi d x < nBasis xi d := by
+  unfold spanIdx nBasis
+  have := foldl_idx_lt (fun k => decide (xi.getD k (nat 0) ≤ x)) (xi.length - 1) (by omega)
+  simp only [decide_eq_true_eq] at this
+  omega
+
+/-- **bounds on the coefficients bound the signal** — for the executable spline evaluation, at every
+point of the grid, every degree: what makes SplineMethod's `grid='inf'` (bounds imposed on the
+coefficients) sufficient for all times -/
+theorem signal_le_of_coeffs_le (xi : List K) (d : Nat) (c : List K) (x ub : K) (hxi : 2 ≤ xi.length)
+    (hc : c.length = nBasis xi d) (hs : SpanOK (clampedKnots xi d) (spanIdx xi d x) x)
+    (h : ∀ v ∈ c, v ≤ ub) : splineEval xi d c x ≤ ub := by
+  rw [splineEval_eq_sum xi d c x hc]
+  apply convex_upper (clampedKnots xi d) (spanIdx xi d x) x hs d (nBasis xi d) (spanIdx_ge xi d x) (spanIdx_lt xi d x hxi)
+  · simp [clampedKnots, nBasis]; omega
+  · intro i hi
+    have hi' : i < c.length := by omega
+    rw [List.getD_eq_getElem?_getD, List.getElem?_eq_getElem hi']
+    exact h _ (List.getElem_mem hi')
+
+theorem signal_ge_of_coeffs_ge (xi : List K) (d : Nat) (c : List K) (x lb : K) (hxi : 2 ≤ xi.length)
+    (hc : c.length = nBasis xi d) (hs : SpanOK (clampedKnots xi d) (spanIdx xi d x) x)
+    (h : ∀ v ∈ c, lb ≤ v) : lb ≤ splineEval xi d c x := by
+  rw [splineEval_eq_sum xi d c x hc]
+  apply convex_lower (clampedKnots xi d) (spanIdx xi d x) x hs d (nBasis xi d) (spanIdx_ge xi d x) (spanIdx_lt xi d x hxi)
+  · simp [clampedKnots, nBasis]; omega
+  · intro i hi
+    have hi' : i < c.length := by omega
+    rw [List.getD_eq_getElem?_getD, List.getElem?_eq_getElem hi']
+    exact h _ (List.getElem_mem hi')
+
+end executable
 
 section structure_
 variable {K : Type} [Field K]
